@@ -355,7 +355,7 @@ def _raised(case, res, pre, cls, e, where):
         else:
             raise e
     if pre:
-        sig = f"{pre}raises:{type(e).__name__}"
+        sig = f"{pre}raises"
     res.fail(sig, f"{where}: {type(e).__name__}: {str(e)[:600]}")
     res.classes = cls + ['raised']
     return False
@@ -463,7 +463,16 @@ def _check_implicit(case, res, pre, cls, fname):
                 Tmax = max([Tmax] + [float(np.max(T[n], initial=0.0)) for n in wrt])
             R = np.concatenate(Rs)
             Jx, Js = np.vstack(Jx), np.vstack(Js)
-            if not np.all(np.isfinite(R)) or not np.all(np.isfinite(Js)) or np.max(np.abs(R), initial=0.0) > 1e-9:
+            p.model.run_apply_nonlinear()
+            own = np.asarray(p.model.c._residuals.asarray(), dtype=float)
+            om_converged = bool(np.all(np.isfinite(own)) and np.max(np.abs(own), initial=0.0) <= 1e-10)
+            mine_bad = not np.all(np.isfinite(R)) or np.max(np.abs(R), initial=0.0) > 1e-9
+            if om_converged and mine_bad:
+                res.fail(pre + 'converged-state-not-a-root', f"point {point}: OpenMDAO's residual norm at its solution is "
+                         f"{np.max(np.abs(own), initial=0.0):.2e} but the wrapped function there gives {R.tolist()} "
+                         f"(states {[(k_, v_.tolist()) for k_, v_ in star.items()]})")
+                continue
+            if mine_bad or not np.all(np.isfinite(Js)):
                 res.discard = 'newton-not-converged'
                 cls.append('not_converged')
                 res.classes = cls
